@@ -697,6 +697,13 @@ impl<T: Transport, E: UtpEnvironment> Dispatcher<T, E> {
         payload=message.payload().len()
     ))]
     async fn on_recv(&mut self, addr: SocketAddr, message: UtpMessage) -> crate::Result<()> {
+        // A SYN names a new connection, which we would receive on connection_id + 1. The id it
+        // carries is the one its sender receives on: a live stream found under it is one we
+        // opened ourselves towards that address with the same id, not the SYN's addressee.
+        if message.header.get_type() == Type::ST_SYN {
+            return self.on_syn(addr, message).await;
+        }
+
         let key = (addr, message.header.connection_id);
 
         if let Some(tx) = self.streams.get(&key) {
@@ -715,9 +722,6 @@ impl<T: Transport, E: UtpEnvironment> Dispatcher<T, E> {
         match message.header.get_type() {
             Type::ST_STATE => {
                 self.on_maybe_connect_ack(addr, message)?;
-            }
-            Type::ST_SYN => {
-                self.on_syn(addr, message).await?;
             }
             _ => {
                 trace!(?message, ?addr, "dropping packet");
